@@ -1493,6 +1493,10 @@ class Exec:
             if isinstance(o, OptVal):
                 return o.isnone
             return False
+        if isinstance(a, OptVal) or isinstance(b, OptVal):
+            if isinstance(b, OptVal):
+                a, b = b, a
+            return And(Not(a.isnone), self.identical(a.val, b, st, line))
         if isinstance(a, ClassRef) or isinstance(b, ClassRef):
             # type(x) is C  -- a is the tag value of type(x)
             ta = self.tag(a.qual) if isinstance(a, ClassRef) else a
